@@ -19,7 +19,7 @@ func init() {
 			"x criterion ranges {[0,10],[-5,5],[3,3],[-8,-2],[-4,0]} declared / observed x gain/cost. Driver (i): the exported level sources through Find+Initialize/HasNext/Next with a 1e6 step cap " +
 			"(whole series: start, update rule, stop rule, clamping, placement, strict monotonicity, finiteness, rejection of out-of-range parameters); " +
 			"driver (ii) end-to-end through the service: every threshold reported by aspect-elimination / satisfaction requests equals the reference series element at the reported index, " +
-			"and each series name is accepted only by the heuristic it is documented for (wiring of httpClient/main.go). " +
+			"and each series name is accepted only by the heuristic it is documented for (wiring of httpClient/main.go), also after a criteria omission (bias-listener wiring). " +
 			"distinct_nontrivial = distinct (series, parameters, range, type) with at least two levels.",
 		Assume: []string{"driver (i) uses the library's exported source objects; which heuristic uses which source list is bound by driver (ii)"},
 		Run:    c14Run,
@@ -188,6 +188,32 @@ func c14CheckWiring(c *Case) []Violation {
 	if err != nil {
 		return []Violation{viol(c, "C14/unparsable", "%v", err)}
 	}
+	// a preceding omission: the series is generated for the remaining criteria (same per-criterion placement)
+	om := map[string]bool{}
+	for _, b := range resp.Biases {
+		for _, o := range asL(asM(b["props"])["omittedCriteria"]) {
+			om[asS(asM(o)["id"])] = true
+		}
+	}
+	if len(om) > 0 {
+		var kept []interface{}
+		for _, cr := range asL(req["criteria"]) {
+			if !om[asS(asM(cr)["id"])] {
+				kept = append(kept, cr)
+			}
+		}
+		req["criteria"] = kept
+		for _, t := range asL(asM(asM(req["methodParameters"])["params"])["thresholds"]) {
+			for id := range om {
+				delete(asM(t), id)
+			}
+		}
+		if w := asM(asM(req["methodParameters"])["weights"]); w != nil {
+			for id := range om {
+				delete(w, id)
+			}
+		}
+	}
 	if asS(req["preferenceFunction"]) == "aspectEliminationHeuristic" {
 		return relabel(aeOracle(c, req, resp), "C14/e2e-")
 	}
@@ -256,6 +282,14 @@ func c14Run(s *Shard) {
 						s.Evals++
 						s.Begin(c)
 						s.Report(c14CheckWiring(c))
+						if accept && (idx[1]+idx[3])%3 == 0 {
+							// the same after a criteria omission: the heuristic's parameters then pass through the bias
+							// listener wired in main.go before the series is generated
+							cb := &Case{Prop: "C14", Kind: "wiring", Req: withBiases(req, []M{bias("criteriaOmission", M{"ratio": 0.5})}), Params: M{"method": method, "function": fname, "accept": true}}
+							s.Evals++
+							s.Begin(cb)
+							s.Report(c14CheckWiring(cb))
+						}
 					})
 				}
 			}
